@@ -137,7 +137,11 @@ pub fn run(env: &Env) {
         let model = M { suite: s, key: k.clone(), header: h.clone(), values: values.clone(), l, init_sig };
         let expected_states = values.len().pow(l as u32);
         // a correct implementation closes the graph at |V|^L states; a path-dependent one never closes it: bound the search
-        let checker = model.checker().threads(2).finish_when(stateright::HasDiscoveries::AnyFailures).target_state_count(8 * expected_states + 64).timeout(std::time::Duration::from_secs(if env.thorough() { 1800 } else { 240 })).spawn_bfs().join();
+        let cap = std::time::Duration::from_secs(if env.thorough() { 1800 } else { 240 });
+        let t0 = std::time::Instant::now();
+        let checker = model.checker().threads(2).finish_when(stateright::HasDiscoveries::AnyFailures).target_state_count(8 * expected_states + 64).timeout(cap).spawn_bfs().join();
+        // a search cut by its wall-clock cap decides nothing about the state count: reported as a cap, never as a verdict
+        let capped = t0.elapsed() + std::time::Duration::from_secs(1) >= cap;
         let unique = checker.unique_state_count();
         for i in 0..unique { env.ctx.state(&[id.as_bytes(), &(i as u32).to_be_bytes()]); }
         env.ctx.steps((unique * l * values.len()) as u64);
@@ -161,6 +165,8 @@ pub fn run(env: &Env) {
         }
         if unique > expected_states {
             env.ctx.violation("C12:state-count:graph-does-not-close", &format!("update graph has at least {} states (search bounded), a path-independent implementation has exactly {}: the same vector is reached with different signatures", unique, expected_states), env.case(id, json!({"unique": unique, "expected": expected_states})));
+        } else if unique != expected_states && checker.discoveries().is_empty() && capped {
+            env.ctx.note(&format!("{}: stateright search stopped by its {} s wall-clock cap after {} of {} states; nothing is concluded from the state count of this root", id, cap.as_secs(), unique, expected_states));
         } else if unique != expected_states && checker.discoveries().is_empty() {
             env.ctx.violation("C12:state-count", &format!("update graph has {} states, expected {}", unique, expected_states), env.case(id, json!({"unique": unique})));
         }
